@@ -46,7 +46,7 @@ static OPEN_BRACKETS: AtomicI64 = AtomicI64::new(0);
 static NO_INFO: AtomicU64 = AtomicU64::new(0);
 
 fn witness(info: &siginfo_t) {
-    if info.si_code != libc::SI_QUEUE {
+    if info.si_code != crate::sig::SI_QUEUE {
         NO_INFO.fetch_add(1, Ordering::SeqCst);
     }
     let seq = crate::sig::si_value(info) as u64;
